@@ -154,7 +154,7 @@ pub fn judge(cfg: &Cfg) -> Vec<(String, String)> {
 
 pub fn configs(tier: Tier) -> Vec<Cfg> {
     let mut v = Vec::new();
-    let max_len = match tier { Tier::Quick => 4, Tier::Thorough => 6 };
+    let max_len = match tier { Tier::Quick => 4, Tier::Thorough => 7 };
     let limits: Vec<u32> = match tier { Tier::Quick => vec![1, 2, 3, 4, 8], Tier::Thorough => vec![1, 2, 3, 4, 8] };
     for kind in [Kind::FalFut, Kind::Fut, Kind::Fal, Kind::NonFut, Kind::Plain] {
         for timeout_ms in if kind.futures() { vec![0, TIMEOUT_MS] } else { vec![0] } {
